@@ -86,6 +86,21 @@ pub fn alphabet(inst: usize, allowed: &[u16], ids: &[u16], layouts: usize) -> Ve
             true,
         );
     }
+    // a template followed, in the same packet, by data for ANOTHER id (which may be unknown: the V9 packet is then an
+    // error, yet the template it carried was received)
+    if ids.len() >= 2 {
+        for (a, b) in [(ids[0], ids[1]), (ids[1], ids[0])] {
+            add(format!("TDx(V9,[T {}:A, D {}])", a, b), v9p(vec![v9_t(a, 0), V9Set::Data(b, body12(17))]), None, 9, true);
+            add(format!("TDx(IPFIX,[T {}:A, D {}])", a, b), ipm(vec![ip_t(a, 0), IpfixSet::Data(b, body12(18))]), None, 10, true);
+        }
+    }
+    // IPFIX template / options-template records that are not well formed (no field of non-zero length): rejected,
+    // and must neither define nor evict anything
+    for id in ids {
+        add(format!("T-all-zero-lengths(IPFIX,{})", id), ipm(vec![IpfixSet::Tpl(vec![IpfixTpl { id: *id, fields: vec![fs(1, 0), fs(2, 0)] }], 0)]), None, 10, false);
+        add(format!("OT-all-zero-lengths(IPFIX,{})", id), ipm(vec![IpfixSet::OptTpl(vec![IpfixOptTpl { id: *id, scope_count: 1, fields: vec![fs(149, 0), fs(41, 0)] }], 0)]), None, 10, false);
+        add(format!("OT-no-fields(IPFIX,{})", id), ipm(vec![IpfixSet::OptTpl(vec![IpfixOptTpl { id: *id, scope_count: 0, fields: vec![] }], 0)]), None, 10, false);
+    }
     add("V5".into(), fixed_distinct(5, 2, 3), None, 0, false);
     add("V7".into(), fixed_distinct(7, 1, 4), None, 0, false);
     add("garbage".into(), (0..11).map(|j| fill(50, j) | 0x80).collect(), None, 0, false);
@@ -255,6 +270,7 @@ pub fn configs(tier: &str, probe: impl Fn() -> Option<Box<dyn Fn(&HistModel, &St
     if tier == "thorough" {
         runs.push(run_config("1 instance, ids {256,257,300}, layouts A,B,C", 1, vec![vec![5, 7, 9, 10]], &[256, 257, 300], 3, 40, probe()));
         runs.push(run_config("2 instances (all / {9}), ids {256,257}, layouts A,B", 2, vec![vec![5, 7, 9, 10], vec![9]], &[256, 257], 2, 40, probe()));
+        runs.push(run_config("2 instances (all / all), ids {256,257}, layouts A,B", 2, vec![vec![5, 7, 9, 10], vec![5, 7, 9, 10]], &[256, 257], 2, 40, probe()));
     } else {
         runs.push(run_config("1 instance, ids {256,257}, layouts A,B,C", 1, vec![vec![5, 7, 9, 10]], &[256, 257], 3, 40, probe()));
     }
@@ -286,6 +302,7 @@ pub fn replay(v: &Value) -> i32 {
         ("1 instance, ids {256,257,300}, layouts A,B,C", 1, vec![vec![5, 7, 9, 10]], vec![256, 257, 300], 3),
         ("2 instances (all / {9}), ids {256,257}, layouts A,B", 2, vec![vec![5, 7, 9, 10], vec![9]], vec![256, 257], 2),
         ("1 instance, ids {256,257}, layouts A,B,C", 1, vec![vec![5, 7, 9, 10]], vec![256, 257], 3),
+        ("2 instances (all / all), ids {256,257}, layouts A,B", 2, vec![vec![5, 7, 9, 10], vec![5, 7, 9, 10]], vec![256, 257], 2),
     ];
     let (_, ninst, allowed, ids, layouts) = match cfgs.into_iter().find(|c| c.0 == label) {
         Some(c) => c,
